@@ -236,4 +236,128 @@ mod verif_kani {
     #[kani::proof]
     #[kani::unwind(7)]
     fn proof_accessors_len5() { proof_accessors(5); }
+
+    // leaf_index over long paths (depths up to 12): only the directions matter, so the elements are fixed
+    #[kani::proof]
+    #[kani::unwind(14)]
+    fn full_leaf_index_len12() {
+        let len: usize = kani::any();
+        kani::assume(len <= 12);
+        let mut v = Vec::new();
+        let mut idx: usize = 0;
+        let mut k = 0;
+        while k < len {
+            let right: bool = kani::any();
+            if right { v.push(FullMerkleBranch::Right(TFr(0))); idx |= 1usize << k; } else { v.push(FullMerkleBranch::Left(TFr(0))); }
+            k += 1;
+        }
+        let p = FullMerkleProof::<TH>(v);
+        assert!(p.leaf_index() == idx, "leaf_index/decodes-lsb-first");
+    }
+
+    // ---- contract steps for the Verus-verified mutators (second opinion that does not depend on how the body is written;
+    //      decides, within the bound, when a changed body can no longer be processed by Verus) ----
+    // shapes (number of written leaves n, number of removal indices m) are concrete per harness to keep CBMC small;
+    // start, the leaf values and the removal indices are symbolic (full usize domain)
+    fn override_range_step(d: usize, n: usize, m: usize) {
+        let cap = 1usize << d;
+        let (mut t, leaves) = any_wf_tree(d);
+        let old_flags = t.cached_leaves_indices.clone();
+        let old_next = t.next_index;
+        let old_nodes = t.nodes.clone();
+        let start: usize = kani::any();
+        let v0 = TFr(kani::any()); let v1 = TFr(kani::any());
+        let r0: usize = kani::any(); let r1: usize = kani::any();
+        let vals: Vec<TFr> = if n == 0 { vec![] } else if n == 1 { vec![v0] } else { vec![v0, v1] };
+        let rm: Vec<usize> = if m == 0 { vec![] } else if m == 1 { vec![r0] } else { vec![r0, r1] };
+        let va = [v0, v1]; let ra = [r0, r1];
+        let r = t.override_range(start, vals.into_iter(), rm.into_iter());
+        let mut in_range = !(start > cap || n > cap - start);
+        let mut k = 0;
+        while k < m { if ra[k] >= cap { in_range = false; } k += 1; }
+        if !in_range {
+            assert!(r.is_err(), "override_range/batch-rejected-changes-nothing");
+            assert!(t.nodes == old_nodes && t.cached_leaves_indices == old_flags && t.next_index == old_next, "override_range/batch-rejected-changes-nothing");
+        } else {
+            assert!(r.is_ok(), "override_range/batch-in-range-accepted");
+            let mut l = leaves;
+            let mut f = [0u8; MAXCAP];
+            let mut k = 0;
+            while k < cap { f[k] = old_flags[k]; k += 1; }
+            let mut k = 0;
+            while k < m { l[ra[k]] = TFr(0); f[ra[k]] = 0; k += 1; }
+            let mut k = 0;
+            while k < n { l[start + k] = va[k]; f[start + k] = 1; k += 1; }
+            assert!(t.nodes == ideal_nodes(d, &l), "override_range/batch-equals-reset-then-write");
+            let mut k = 0;
+            while k < cap { assert!(t.cached_leaves_indices[k] == f[k], "override_range/batch-marks-removed-empty-written-set"); k += 1; }
+            let exp_next = if n > 0 { std::cmp::max(old_next, start + n) } else { old_next };
+            assert!(t.next_index == exp_next, "override_range/batch-high-water-mark");
+        }
+    }
+    #[kani::proof]
+    #[kani::unwind(6)]
+    fn override_range_d1_w1_r2() { override_range_step(1, 1, 2); }
+    #[kani::proof]
+    #[kani::unwind(10)]
+    fn override_range_d2_w2_r1() { override_range_step(2, 2, 1); }
+    #[kani::proof]
+    #[kani::unwind(10)]
+    fn override_range_d2_w1_r2() { override_range_step(2, 1, 2); }
+    #[kani::proof]
+    #[kani::unwind(10)]
+    fn override_range_d2_w0_r2() { override_range_step(2, 0, 2); }
+
+    fn set_step(d: usize) {
+        let cap = 1usize << d;
+        let (mut t, leaves) = any_wf_tree(d);
+        let old = t.clone();
+        let i: usize = kani::any();
+        let v = TFr(kani::any());
+        let r = t.set(i, v);
+        if i >= cap { assert!(r.is_err() && t == old, "set/set-rejected-changes-nothing"); }
+        else {
+            let mut l = leaves; l[i] = v;
+            assert!(r.is_ok() && t.nodes == ideal_nodes(d, &l), "set/set-writes-exactly-one-leaf");
+            assert!(t.next_index == std::cmp::max(old.next_index, i + 1), "set/set-high-water-mark");
+            let mut k = 0;
+            while k < cap { assert!(t.cached_leaves_indices[k] == (if k == i { 1 } else { old.cached_leaves_indices[k] }), "set/set-marks-written"); k += 1; }
+        }
+    }
+    fn delete_step(d: usize) {
+        let cap = 1usize << d;
+        let (mut t, leaves) = any_wf_tree(d);
+        let old = t.clone();
+        let i: usize = kani::any();
+        let r = t.delete(i);
+        assert!(r.is_ok(), "delete/no-error");
+        if i < old.next_index {
+            let mut l = leaves; l[i] = TFr(0);
+            assert!(t.nodes == ideal_nodes(d, &l) && t.next_index == old.next_index, "delete/delete-resets-leaf");
+            let mut k = 0;
+            while k < cap { assert!(t.cached_leaves_indices[k] == (if k == i { 0 } else { old.cached_leaves_indices[k] }), "delete/delete-marks-empty"); k += 1; }
+        } else { assert!(t == old, "delete/delete-beyond-mark-is-noop"); }
+    }
+    fn update_next_step(d: usize) {
+        let cap = 1usize << d;
+        let (mut t, leaves) = any_wf_tree(d);
+        let old = t.clone();
+        let v = TFr(kani::any());
+        let r = t.update_next(v);
+        if old.next_index >= cap { assert!(r.is_err() && t == old, "update_next/append-full-tree-rejected"); }
+        else {
+            let mut l = leaves; l[old.next_index] = v;
+            assert!(r.is_ok() && t.nodes == ideal_nodes(d, &l) && t.next_index == old.next_index + 1, "update_next/append-writes-at-high-water-mark");
+            assert!(t.cached_leaves_indices[old.next_index] == 1, "update_next/append-marks-written");
+        }
+    }
+    #[kani::proof]
+    #[kani::unwind(10)]
+    fn set_step_d2() { set_step(2); }
+    #[kani::proof]
+    #[kani::unwind(10)]
+    fn delete_step_d2() { delete_step(2); }
+    #[kani::proof]
+    #[kani::unwind(10)]
+    fn update_next_step_d2() { update_next_step(2); }
 }
